@@ -25,7 +25,7 @@ echo "$FIRST"
 grep -E "^(HARNESS|NONDET|UNREPRO)" "$WT.log" | head -3
 DEST=/verif/seeded/$NAME
 mkdir -p "$DEST"
-cp "$SRC/patch.diff" "$SRC/demo.py" "$DEST/"
+[ "$SRC" = "$(realpath "$DEST")" ] || cp "$SRC/patch.diff" "$SRC/demo.py" "$DEST/"
 python3 - "$SRC/meta.json" "$DEST/meta.json" "$PROP" "$D0" "$D1" "$TOUT" "$TIER" "$RC" "$NV" "$FIRST" <<'E'
 import json, sys
 src, dst, prop, d0, d1, tout, tier, rc, nv, first = sys.argv[1:]
